@@ -219,6 +219,202 @@ theorem gen_model_rcr_conservation_partial (hx : Crossing a) {FL FR : FanAtoms}
 
 end solutions
 
+/-! ### the driver's arrays are samples of the conservative solution -/
+
+theorem xi_le_iff {xd0 t v x : ℝ} (ht : 0 < t) : v ≤ (x - xd0) / t ↔ RiemannGen.xpos xd0 t v ≤ x := by
+  rw [le_div_iff₀ ht, RiemannGen.xpos]
+  constructor <;> intro h <;> linarith
+
+/-- the rows of a fan table lie on the fan `F` (exactness of the table in the similarity variable) -/
+def RowsOnFanL (e : Eos ℝ) (q : Prob) (a : Atoms ℝ) (F : FanAtoms) : Prop :=
+  ∀ r ∈ a.tabL, F.state (closureOf e q.gl) (r.u + -RiemannIG.Num.ofNat 1 * RiemannGen.soundSpeed e r.p r.r q.gl)
+    = toSpec (RiemannGen.st e q.gl r.p r.r r.u)
+def RowsOnFanR (e : Eos ℝ) (q : Prob) (a : Atoms ℝ) (F : FanAtoms) : Prop :=
+  ∀ r ∈ a.tabR, F.state (closureOf e q.gr) (r.u + RiemannIG.Num.ofNat 1 * RiemannGen.soundSpeed e r.p r.r q.gr)
+    = toSpec (RiemannGen.st e q.gr r.p r.r r.u)
+
+theorem row_xi (xd0 : ℝ) {t : ℝ} (ht : t ≠ 0) (w : ℝ) : (xd0 + t * w - xd0) / t = w := by
+  field_simp; ring
+
+section nodes
+variable (e : Eos ℝ) (q : Prob) (a : Atoms ℝ) (prev next : ℝ → ℝ) (xd0 t xmaxW : ℝ) (ht : 0 < t)
+
+local notation "node" => RiemannGen.solveAtNode e (toData q) a prev next xd0 t xmaxW
+local notation "X" => RiemannGen.xpos xd0 t
+
+include ht in
+/-- **SCS**: every admissible grid node -/
+theorem gen_model_scs_nodes_partial (hL : q.pl < a.px) (hR : q.pr < a.px) (g : GridSCS (toData q) a prev next xd0 t) :
+    (∀ x, x < X (RiemannGen.vShockL (toData q) a) → toSpec (node x).2 = genW_scs e q a xd0 x t) ∧
+    (∀ x, next (X (RiemannGen.vShockL (toData q) a)) ≤ x → x < X a.ux1 → toSpec (node x).2 = genW_scs e q a xd0 x t) ∧
+    (∀ x, X a.ux1 < x → x ≤ prev (X (RiemannGen.vShockR (toData q) a)) → toSpec (node x).2 = genW_scs e q a xd0 x t) ∧
+    (∀ x, X (RiemannGen.vShockR (toData q) a) ≤ x → toSpec (node x).2 = genW_scs e q a xd0 x t) := by
+  obtain ⟨h0n, hnc, hc2, hp2⟩ := id g
+  refine ⟨fun x h => ?_, fun x h1 h2 => ?_, fun x h1 h2 => ?_, fun x h => ?_⟩
+  · rw [scs_zone_left e (toData q) a prev next xd0 t xmaxW hL hR g h.le]
+    simp only [genW_scs, spw, List.cons_append, List.nil_append, xi_le_iff ht]
+    rw [if_neg (not_le.mpr h)]
+  · rw [scs_zone_starL e (toData q) a prev next xd0 t xmaxW hL hR g h1 h2.le]
+    simp only [genW_scs, spw, List.cons_append, List.nil_append, xi_le_iff ht]
+    rw [if_pos (by linarith), if_neg (not_le.mpr h2)]
+  · rw [scs_zone_starR e (toData q) a prev next xd0 t xmaxW hL hR g h1 h2]
+    simp only [genW_scs, spw, List.cons_append, List.nil_append, xi_le_iff ht]
+    rw [if_pos (by linarith), if_pos h1.le, if_neg (by linarith)]
+  · rw [scs_zone_right e (toData q) a prev next xd0 t xmaxW hL hR g h]
+    simp only [genW_scs, spw, List.cons_append, List.nil_append, xi_le_iff ht]
+    rw [if_pos (by linarith), if_pos (by linarith), if_pos h]
+
+include ht in
+/-- **SCR** -/
+theorem gen_model_scr_nodes_partial (hL : q.pl < a.px) (hR : a.px < q.pr) (g : GridSCR e (toData q) a prev next xd0 t)
+    {F : FanAtoms} (hrows : RowsOnFanR e q a F)
+    (hs : Sorted (RiemannGen.fanTab e q.gr (RiemannIG.Num.ofNat 1) xd0 t a.tabR)) :
+    (∀ x, x < X (RiemannGen.vShockL (toData q) a) → toSpec (node x).2 = genW_scr e q a F xd0 x t) ∧
+    (∀ x, next (X (RiemannGen.vShockL (toData q) a)) ≤ x → x < X a.ux1 → toSpec (node x).2 = genW_scr e q a F xd0 x t) ∧
+    (∀ x, X a.ux1 < x → x < X (RiemannGen.vTailR e (toData q) a) → toSpec (node x).2 = genW_scr e q a F xd0 x t) ∧
+    (∀ r ∈ a.tabR, X (RiemannGen.vTailR e (toData q) a) < rowR e q.gr xd0 t r →
+        rowR e q.gr xd0 t r ≤ prev (X (RiemannGen.vHeadR e (toData q))) →
+        toSpec (node (rowR e q.gr xd0 t r)).2 = genW_scr e q a F xd0 (rowR e q.gr xd0 t r) t) ∧
+    (∀ x, X (RiemannGen.vHeadR e (toData q)) ≤ x → toSpec (node x).2 = genW_scr e q a F xd0 x t) := by
+  obtain ⟨h0n, hnc, hc2, h23, hp3⟩ := id g
+  refine ⟨fun x h => ?_, fun x h1 h2 => ?_, fun x h1 h2 => ?_, fun r hr h0 h1 => ?_, fun x h => ?_⟩
+  · rw [scr_zone_left e (toData q) a prev next xd0 t xmaxW hL hR g h.le]
+    simp only [genW_scr, spw, List.cons_append, List.nil_append, xi_le_iff ht]
+    rw [if_neg (not_le.mpr h)]
+  · rw [scr_zone_starL e (toData q) a prev next xd0 t xmaxW hL hR g h1 h2.le]
+    simp only [genW_scr, spw, List.cons_append, List.nil_append, xi_le_iff ht]
+    rw [if_pos (by linarith), if_neg (not_le.mpr h2)]
+  · rw [scr_zone_starR e (toData q) a prev next xd0 t xmaxW hL hR g h1 h2.le]
+    simp only [genW_scr, spw, List.cons_append, List.nil_append, xi_le_iff ht]
+    rw [if_pos (by linarith), if_pos h1.le, if_neg (not_le.mpr h2)]
+  · rw [scr_zone_fan e (toData q) a prev next xd0 t xmaxW hL hR g h0 h1]
+    have k := interpG_mem RiemannGen.lerpS _ (RiemannGen.starR e (toData q) a) hs (rowR_mem e q.gr xd0 t hr)
+    show toSpec (RiemannGen.interpS _ _ _) = _
+    unfold RiemannGen.interpS
+    rw [show (toData q).gr = q.gr from rfl, k]
+    simp only [genW_scr, spw, List.cons_append, List.nil_append, xi_le_iff ht]
+    rw [if_pos (by linarith), if_pos (by linarith), if_pos h0.le, if_neg (by linarith)]
+    rw [show rowR e q.gr xd0 t r = xd0 + t * (r.u + RiemannIG.Num.ofNat 1 * RiemannGen.soundSpeed e r.p r.r q.gr) from rfl,
+      row_xi xd0 ht.ne']
+    exact (hrows r hr).symm
+  · rw [scr_zone_right e (toData q) a prev next xd0 t xmaxW hL hR g h]
+    simp only [genW_scr, spw, List.cons_append, List.nil_append, xi_le_iff ht]
+    rw [if_pos (by linarith), if_pos (by linarith), if_pos (by linarith), if_pos h]
+
+include ht in
+/-- **RCS** -/
+theorem gen_model_rcs_nodes_partial (hL : a.px < q.pl) (hR : q.pr < a.px) (g : GridRCS e (toData q) a prev xd0 t)
+    {F : FanAtoms} (hrows : RowsOnFanL e q a F)
+    (hs : Sorted (RiemannGen.fanTab e q.gl (-RiemannIG.Num.ofNat 1) xd0 t a.tabL)) :
+    (∀ x, x < X (RiemannGen.vHeadL e (toData q)) → toSpec (node x).2 = genW_rcs e q a F xd0 x t) ∧
+    (∀ r ∈ a.tabL, X (RiemannGen.vHeadL e (toData q)) < rowL e q.gl xd0 t r →
+        rowL e q.gl xd0 t r < X (RiemannGen.vTailL e (toData q) a) →
+        toSpec (node (rowL e q.gl xd0 t r)).2 = genW_rcs e q a F xd0 (rowL e q.gl xd0 t r) t) ∧
+    (∀ x, X (RiemannGen.vTailL e (toData q) a) < x → x ≤ prev (X a.ux1) → toSpec (node x).2 = genW_rcs e q a F xd0 x t) ∧
+    (∀ x, X a.ux1 < x → x ≤ prev (X (RiemannGen.vShockR (toData q) a)) → toSpec (node x).2 = genW_rcs e q a F xd0 x t) ∧
+    (∀ x, X (RiemannGen.vShockR (toData q) a) ≤ x → toSpec (node x).2 = genW_rcs e q a F xd0 x t) := by
+  obtain ⟨h01, h1c, hpc, hc3, hp3⟩ := id g
+  refine ⟨fun x h => ?_, fun r hr h0 h1 => ?_, fun x h1 h2 => ?_, fun x h1 h2 => ?_, fun x h => ?_⟩
+  · rw [rcs_zone_left e (toData q) a prev next xd0 t xmaxW hL hR g h.le]
+    simp only [genW_rcs, spw, List.cons_append, List.nil_append, xi_le_iff ht]
+    rw [if_neg (not_le.mpr h)]
+  · rw [rcs_zone_fan e (toData q) a prev next xd0 t xmaxW hL hR g h0 h1.le]
+    have k := interpG_mem RiemannGen.lerpS _ (RiemannGen.leftState e (toData q)) hs (rowL_mem e q.gl xd0 t hr)
+    show toSpec (RiemannGen.interpS _ _ _) = _
+    unfold RiemannGen.interpS
+    rw [show (toData q).gl = q.gl from rfl, k]
+    simp only [genW_rcs, spw, List.cons_append, List.nil_append, xi_le_iff ht]
+    rw [if_pos h0.le, if_neg (not_le.mpr h1)]
+    rw [show rowL e q.gl xd0 t r = xd0 + t * (r.u + -RiemannIG.Num.ofNat 1 * RiemannGen.soundSpeed e r.p r.r q.gl) from rfl,
+      row_xi xd0 ht.ne']
+    exact (hrows r hr).symm
+  · rw [rcs_zone_starL e (toData q) a prev next xd0 t xmaxW hL hR g h1 h2]
+    simp only [genW_rcs, spw, List.cons_append, List.nil_append, xi_le_iff ht]
+    rw [if_pos (by linarith), if_pos h1.le, if_neg (by linarith)]
+  · rw [rcs_zone_starR e (toData q) a prev next xd0 t xmaxW hL hR g h1 h2]
+    simp only [genW_rcs, spw, List.cons_append, List.nil_append, xi_le_iff ht]
+    rw [if_pos (by linarith), if_pos (by linarith), if_pos h1.le, if_neg (by linarith)]
+  · rw [rcs_zone_right e (toData q) a prev next xd0 t xmaxW hL hR g h]
+    simp only [genW_rcs, spw, List.cons_append, List.nil_append, xi_le_iff ht]
+    rw [if_pos (by linarith), if_pos (by linarith), if_pos (by linarith), if_pos h]
+
+include ht in
+/-- **RCR** -/
+theorem gen_model_rcr_nodes_partial (hL : a.px < q.pl) (hR : a.px < q.pr) (g : GridRCR e (toData q) a prev xd0 t)
+    {FL FR : FanAtoms} (hrowsL : RowsOnFanL e q a FL) (hrowsR : RowsOnFanR e q a FR)
+    (hsL : Sorted (RiemannGen.fanTab e q.gl (-RiemannIG.Num.ofNat 1) xd0 t a.tabL))
+    (hsR : Sorted (RiemannGen.fanTab e q.gr (RiemannIG.Num.ofNat 1) xd0 t a.tabR)) :
+    (∀ x, x < X (RiemannGen.vHeadL e (toData q)) → toSpec (node x).2 = genW_rcr e q a FL FR xd0 x t) ∧
+    (∀ r ∈ a.tabL, X (RiemannGen.vHeadL e (toData q)) < rowL e q.gl xd0 t r →
+        rowL e q.gl xd0 t r < X (RiemannGen.vTailL e (toData q) a) →
+        toSpec (node (rowL e q.gl xd0 t r)).2 = genW_rcr e q a FL FR xd0 (rowL e q.gl xd0 t r) t) ∧
+    (∀ x, X (RiemannGen.vTailL e (toData q) a) < x → x < X a.ux1 → toSpec (node x).2 = genW_rcr e q a FL FR xd0 x t) ∧
+    (∀ x, X a.ux1 < x → x < X (RiemannGen.vTailR e (toData q) a) → toSpec (node x).2 = genW_rcr e q a FL FR xd0 x t) ∧
+    (∀ r ∈ a.tabR, X (RiemannGen.vTailR e (toData q) a) < rowR e q.gr xd0 t r →
+        rowR e q.gr xd0 t r ≤ prev (X (RiemannGen.vHeadR e (toData q))) →
+        toSpec (node (rowR e q.gr xd0 t r)).2 = genW_rcr e q a FL FR xd0 (rowR e q.gr xd0 t r) t) ∧
+    (∀ x, X (RiemannGen.vHeadR e (toData q)) ≤ x → toSpec (node x).2 = genW_rcr e q a FL FR xd0 x t) := by
+  obtain ⟨h01, h1c, hc3, h34, hp4⟩ := id g
+  refine ⟨fun x h => ?_, fun r hr h0 h1 => ?_, fun x h1 h2 => ?_, fun x h1 h2 => ?_, fun r hr h0 h1 => ?_,
+    fun x h => ?_⟩
+  · rw [rcr_zone_left e (toData q) a prev next xd0 t xmaxW hL hR g h.le]
+    simp only [genW_rcr, spw, List.cons_append, List.nil_append, xi_le_iff ht]
+    rw [if_neg (not_le.mpr h)]
+  · rw [rcr_zone_fanL e (toData q) a prev next xd0 t xmaxW hL hR g h0 h1.le]
+    have k := interpG_mem RiemannGen.lerpS _ (RiemannGen.leftState e (toData q)) hsL (rowL_mem e q.gl xd0 t hr)
+    show toSpec (RiemannGen.interpS _ _ _) = _
+    unfold RiemannGen.interpS
+    rw [show (toData q).gl = q.gl from rfl, k]
+    simp only [genW_rcr, spw, List.cons_append, List.nil_append, xi_le_iff ht]
+    rw [if_pos h0.le, if_neg (not_le.mpr h1)]
+    rw [show rowL e q.gl xd0 t r = xd0 + t * (r.u + -RiemannIG.Num.ofNat 1 * RiemannGen.soundSpeed e r.p r.r q.gl) from rfl,
+      row_xi xd0 ht.ne']
+    exact (hrowsL r hr).symm
+  · rw [rcr_zone_starL e (toData q) a prev next xd0 t xmaxW hL hR g h1 h2.le]
+    simp only [genW_rcr, spw, List.cons_append, List.nil_append, xi_le_iff ht]
+    rw [if_pos (by linarith), if_pos h1.le, if_neg (not_le.mpr h2)]
+  · rw [rcr_zone_starR e (toData q) a prev next xd0 t xmaxW hL hR g h1 h2.le]
+    simp only [genW_rcr, spw, List.cons_append, List.nil_append, xi_le_iff ht]
+    rw [if_pos (by linarith), if_pos (by linarith), if_pos h1.le, if_neg (not_le.mpr h2)]
+  · rw [rcr_zone_fanR e (toData q) a prev next xd0 t xmaxW hL hR g h0 h1]
+    have k := interpG_mem RiemannGen.lerpS _ (RiemannGen.starR e (toData q) a) hsR (rowR_mem e q.gr xd0 t hr)
+    show toSpec (RiemannGen.interpS _ _ _) = _
+    unfold RiemannGen.interpS
+    rw [show (toData q).gr = q.gr from rfl, k]
+    simp only [genW_rcr, spw, List.cons_append, List.nil_append, xi_le_iff ht]
+    rw [if_pos (by linarith), if_pos (by linarith), if_pos (by linarith), if_pos h0.le, if_neg (by linarith)]
+    rw [show rowR e q.gr xd0 t r = xd0 + t * (r.u + RiemannIG.Num.ofNat 1 * RiemannGen.soundSpeed e r.p r.r q.gr) from rfl,
+      row_xi xd0 ht.ne']
+    exact (hrowsR r hr).symm
+  · rw [rcr_zone_right e (toData q) a prev next xd0 t xmaxW hL hR g h]
+    simp only [genW_rcr, spw, List.cons_append, List.nil_append, xi_le_iff ht]
+    rw [if_pos (by linarith), if_pos (by linarith), if_pos (by linarith), if_pos (by linarith), if_pos h]
+
+end nodes
+
+/-! ### non-vacuity: the γ = 3 problem of `EPV.C02.RiemannGen` with the closed-form fan of the ideal-gas solver
+
+pl = 1, ρl = 3, ul = 0 | pr = 1/12, ρr = 3/4, ur = 5/12;  px = 1/8, ρ*₁ = 3/2, ρ*₂ = 6/7, u* = 1/2;
+fan between ξ = −1 and ξ = 0, contact at 1/2, shock at 13/12. -/
+
+open EPV.C02.RiemannGen (qEx aEx ex_hugoniotAtom ex_vHeadL ex_vTailL ex_vShockR)
+
+/-- the hypotheses of `gen_model_rcs_conservation_partial` are satisfiable -/
+theorem ex_exactFanL : ExactFanL eosIG qEx aEx (EPV.C04.igFanAtoms 1 3 1 1 3 0) := by
+  unfold ExactFanL
+  rw [ex_vHeadL, ex_vTailL]
+  have hc : closureOf eosIG qEx.gl = closureIG 3 := by simp [closureOf, eosIG, qEx]
+  rw [hc]
+  simpa [qEx, aEx] using EPV.C04.ex_leftFan
+
+example : qEx.Distinct ∧ Crossing aEx ∧ ExactFanL eosIG qEx aEx (EPV.C04.igFanAtoms 1 3 1 1 3 0) ∧
+    HugoniotAtom eosIG (toData qEx) qEx.pr qEx.rr qEx.ur qEx.gr aEx.px aEx.rx2 aEx.ux2 ∧
+    (-2 : ℝ) < RiemannGen.xpos 0 1 (RiemannGen.vHeadL eosIG (toData qEx)) ∧
+    RiemannGen.xpos 0 1 (RiemannGen.vShockR (toData qEx) aEx) < 2 := by
+  refine ⟨by unfold Prob.Distinct qEx; norm_num, rfl, ex_exactFanL, ex_hugoniotAtom, ?_, ?_⟩
+  · rw [ex_vHeadL]; norm_num [RiemannGen.xpos]
+  · rw [ex_vShockR]; norm_num [RiemannGen.xpos]
+
 end
 
 end EPV.C04.RiemannGenModel
